@@ -112,7 +112,7 @@ Section Layout.
 Variable m : fsyms.
 
 Definition lenv (s : lstate) : env :=
-  mkEnv (resolve (S (List.length (l_scope s))) m (l_scope s)) (cur_target s).
+  mkEnv (resolve (S (List.length (l_scope s))) m (l_scope s)) (option_map usize_as_i64 (cur_target s)).
 
 (* value of an expression under the final symbols; a missing value is reported *)
 Definition leval (e : lexpr) : L (option sval) := fun s =>
@@ -168,10 +168,15 @@ Fixpoint lloop (fuel : nat) (i n : Z) (body : Z -> L unit) : L unit :=
   if n <=? i then lret tt else
   match fuel with O => labort 0%nat | S f => body i ;;~ lloop f (i + 1) n body end.
 
-Fixpoint check_args (params : list (ident * span)) (args : list lexpr) : L unit :=
-  match params, args with
-  | (p, _) :: ps, a :: r =>
-      v <~ leval a ;;
+(* the arguments of an invocation are evaluated where the invocation stands *)
+Fixpoint eval_args (args : list lexpr) : L (list (option sval)) :=
+  match args with
+  | [] => lret []
+  | a :: r => v <~ leval a ;; vs <~ eval_args r ;; lret (v :: vs)
+  end.
+Fixpoint check_args (params : list (ident * span)) (vals : list (option sval)) : L unit :=
+  match params, vals with
+  | (p, _) :: ps, v :: r =>
       (match v with
        | Some (SNum n) => check_symbol p (DNum n)
        | Some (SStr t) => check_symbol p (DStr t)
@@ -284,7 +289,8 @@ Fixpoint lay (fuel : nat) (t : token) : L unit :=
               if negb (Nat.eqb (List.length args) (List.length params)) then bad (LError 7 nspan)
               else
                 lmod (fun s => mkLS (l_scope s) (l_seg s) (l_segs s) (l_log s) (S (l_macro s)) (l_bad s) (l_addrs s)) ;;~
-                in_scope (macro_scope_name (l_macro s)) false (check_args params args ;;~ lays body)
+                vals <~ eval_args args ;;
+                in_scope (macro_scope_name (l_macro s)) false (check_args params vals ;;~ lays body)
           end
       | TPc value =>
           v <~ leval_i64 value ;;
